@@ -1,6 +1,8 @@
 pub mod gen;
+pub mod lexer;
 pub mod props;
 pub mod runner;
+pub mod soup;
 pub mod tape;
 pub mod tcase;
 pub mod term;
